@@ -1191,6 +1191,9 @@ type c19PathCase struct {
 	Method string `json:"method"`
 	Path   string `json:"path"`
 	Ep     string `json:"ep"` // endpoint whose well-formed body is sent with a POST ("" = {})
+	// the path is a known route with ONE character replaced by another plain character (not its other letter case): an
+	// unknown path, which must get a failure status
+	MustFail bool `json:"must_fail,omitempty"`
 }
 
 var pathLitRe = regexp.MustCompile(`"(/[A-Za-z0-9_/.\-]{0,60})"`)
@@ -1257,11 +1260,14 @@ func checkC19Path(c c19PathCase) verdict {
 		return bad(true, labels, "the server reports an unrecovered panic, a fatal error or a data race: %s", trunc(sv.stderr.String(), 1500))
 	}
 	labels = append(labels, fmt.Sprintf("status=%dxx", status/100))
+	if c.MustFail && status < 400 {
+		return bad(true, labels, "%s %s (a known route with one character changed: an unknown path) answered %d %s; want a failure status (>= 400)", c.Method, c.Path, status, trunc(string(rb), 120))
+	}
 	return ok(true, labels...)
 }
 
 var c19Path = newPart("C19", "discovered-paths",
-	"enumeration: path literals taken from the REST layer's own source (routes, prefixes, mount points) x {as written, without / with a trailing slash, cut after every character, extended by x / 0 / beta / beta/x / %2F, glued in front of every endpoint with and without the joining slash} x {GET, POST with the endpoint's well-formed body}; invariant: a complete HTTP response (one lone retry with 15 s), a status 100..599, an answer below 1 MiB, the process alive and no unrecovered panic, every 25th request followed by the RFC probe; the status itself is free (a new alias may legitimately exist); every case distinct and non-trivial",
+	"enumeration: path literals taken from the REST layer's own source (routes, prefixes, mount points) x {as written, without / with a trailing slash, cut after every character, extended by x / 0 / beta / beta/x / %2F, glued in front of every endpoint with and without the joining slash} x {GET, POST with the endpoint's well-formed body}; invariant: a complete HTTP response (one lone retry with 15 s), a status 100..599, an answer below 1 MiB, the process alive and no unrecovered panic, every 25th request followed by the RFC probe; the status itself is free (a new alias may legitimately exist) — except for known routes with one bit of one character flipped (plain characters only, not the other letter case), which are unknown paths and get a failure status; every case distinct and non-trivial",
 	checkC19Path)
 
 func TestC19_DiscoveredPaths(t *testing.T) {
@@ -1317,6 +1323,40 @@ func TestC19_DiscoveredPaths(t *testing.T) {
 		for _, route := range getEndpoints {
 			run(bare+route, "")
 			run(bare+"0"+route, "")
+		}
+	}
+	// every known route with one bit of one byte flipped (a lookup that hashes or skips some positions of the path takes a
+	// neighbour for the route): where the result is a plain path that is no route and not merely another letter case, it is
+	// an unknown path
+	routes := map[string]string{}
+	for ep, p := range postEndpoints {
+		routes[p] = ep
+	}
+	for _, p := range getEndpoints {
+		routes[p] = ""
+	}
+	var names []string
+	for p := range routes {
+		names = append(names, p)
+	}
+	sort.Strings(names)
+	for _, route := range names {
+		for k := 1; k < len(route); k++ {
+			for bit := 0; bit < 7; bit++ {
+				b := []byte(route)
+				b[k] ^= 1 << bit
+				ch := b[k]
+				plain := ch >= 'a' && ch <= 'z' || ch >= 'A' && ch <= 'Z' || ch >= '0' && ch <= '9' || ch == '-' || ch == '_' || ch == '~'
+				if _, isRoute := routes[string(b)]; isRoute || !plain || strings.EqualFold(string(b), route) {
+					continue
+				}
+				for _, m := range []string{"GET", "POST"} {
+					i++
+					if ev.Mine(i) {
+						c19Path.each(t, c19PathCase{Method: m, Path: string(b), Ep: routes[route], MustFail: true})
+					}
+				}
+			}
 		}
 	}
 	c19Path.rec().Exhaustive()
